@@ -17,9 +17,21 @@ VENV_PY = os.environ.get("WPV_VENV_PY", "/venv/bin/python")
 
 
 def _types_hash():
-  p = os.path.join(REPO, "mujoco_warp", "_src", "types.py")
-  with open(p, "rb") as f:
-    return hashlib.sha256(f.read()).hexdigest()[:16]
+  h = hashlib.sha256()
+  for p in (os.path.join(REPO, "mujoco_warp", "_src", "types.py"), os.path.join(HERE, "tools", "dump_consts.py")):
+    with open(p, "rb") as f:
+      h.update(f.read())
+  # vector / matrix classes declared in other modules (their declarations are part of the key)
+  import glob
+  import re
+
+  for p in sorted(glob.glob(os.path.join(REPO, "mujoco_warp", "_src", "*.py"))):
+    if p.endswith("_test.py"):
+      continue
+    with open(p, "rb") as f:
+      for m in re.findall(rb"^class \w+\(wp\.types\.(?:vector|matrix)\(.*$", f.read(), re.M):
+        h.update(m)
+  return h.hexdigest()[:16]
 
 
 def load_consts(force=False):
